@@ -454,6 +454,9 @@ Pat/C01CheckProofs.vos Pat/C01CheckProofs.vok Pat/C01CheckProofs.required_vos: P
 Pat/Chain.vo Pat/Chain.glob Pat/Chain.v.beautified Pat/Chain.required_vo: Pat/Chain.v Gen/PatConsts.vo Pat/Syntax.vo Pat/Sem.vo
 Pat/Chain.vio: Pat/Chain.v Gen/PatConsts.vio Pat/Syntax.vio Pat/Sem.vio
 Pat/Chain.vos Pat/Chain.vok Pat/Chain.required_vos: Pat/Chain.v Gen/PatConsts.vos Pat/Syntax.vos Pat/Sem.vos
+Pat/ChainCompleteProofs.vo Pat/ChainCompleteProofs.glob Pat/ChainCompleteProofs.v.beautified Pat/ChainCompleteProofs.required_vo: Pat/ChainCompleteProofs.v Pat/Syntax.vo Pat/MatchList.vo Pat/MatchListProofs.vo Pat/ChainRun.vo Pat/ChainRunProofs.vo
+Pat/ChainCompleteProofs.vio: Pat/ChainCompleteProofs.v Pat/Syntax.vio Pat/MatchList.vio Pat/MatchListProofs.vio Pat/ChainRun.vio Pat/ChainRunProofs.vio
+Pat/ChainCompleteProofs.vos Pat/ChainCompleteProofs.vok Pat/ChainCompleteProofs.required_vos: Pat/ChainCompleteProofs.v Pat/Syntax.vos Pat/MatchList.vos Pat/MatchListProofs.vos Pat/ChainRun.vos Pat/ChainRunProofs.vos
 Pat/ChainProofs.vo Pat/ChainProofs.glob Pat/ChainProofs.v.beautified Pat/ChainProofs.required_vo: Pat/ChainProofs.v Gen/PatConsts.vo Pat/Syntax.vo Pat/Sem.vo Pat/Matcher.vo Pat/MatcherProofs.vo Pat/Chain.vo
 Pat/ChainProofs.vio: Pat/ChainProofs.v Gen/PatConsts.vio Pat/Syntax.vio Pat/Sem.vio Pat/Matcher.vio Pat/MatcherProofs.vio Pat/Chain.vio
 Pat/ChainProofs.vos Pat/ChainProofs.vok Pat/ChainProofs.required_vos: Pat/ChainProofs.v Gen/PatConsts.vos Pat/Syntax.vos Pat/Sem.vos Pat/Matcher.vos Pat/MatcherProofs.vos Pat/Chain.vos
